@@ -1362,8 +1362,11 @@ int main(int argc, char** argv)
       }
       rep.extra["dual_writer_mps_canary_survives"] = mpsAlive ? "true" : "false";
       const Family& DF = thorough ? S1 : S0;
-      Family D11 = famT(1, 1, {-1, 0, 1}, {-1, 0, 1}, {0, 1, 2, 3, 4}, {0, 1, 2, 3, 4, 5, 6, 7});
+      Family D11 = famT(1, 1, {-1, 0, 1}, {-1, 0, 1}, {0, 1, 2, 3, 4, 5, 6, 7, 8, 9}, {0, 1, 2, 3, 4, 5, 6, 7});
       D11.offsets = {0};
+      // every column-bound shape the dual LP builder distinguishes ((-inf,0], (-inf,u], [0,inf), [l,inf), [0,u], [l,0], [l,u], fixed, free) x every row type, both senses
+      Family DS = thorough ? famT(2, 2, {-1, 0, 1}, {-2, 0, 1}, {5, 6, 7, 8, 9, 3}, {0, 1, 2, 3}) : famT(2, 1, {-1, 0, 1}, {-2, 1}, {1, 2, 5, 6, 7, 8, 9, 3}, {0, 1, 2, 3});
+      DS.offsets = {0};
       int nfmt = mpsAlive ? 2 : 1;
       rep.phase(std::string("dual writer: ") + (thorough ? "family Q" : "quick structural family") + (mpsAlive ? " x {LP,MPS} x wzo" : " x LP x wzo"), DF.size(), [&](uint64_t idx, int, Ctx & c) -> uint64_t
       {
@@ -1374,6 +1377,15 @@ int main(int argc, char** argv)
          return h;
       }, [&](uint64_t idx, uint64_t sub) { TinyLP lp; DF.get(idx, lp); return "D|fmt=" + std::to_string(sub & 1) + ",wzo=" + std::to_string((sub >> 1) & 1) + "|" + lp.str(); }, o,
       [&](uint64_t, uint64_t sub) { return std::string("@dual,") + ((sub & 1) ? "MPS" : "LP"); });
+      rep.phase(std::string("dual writer: column-bound shapes ") + (thorough ? "T(2,2)" : "T(2,1)") + " x LP x wzo", DS.size(), [&](uint64_t idx, int, Ctx & c) -> uint64_t
+      {
+         TinyLP lp;
+         if(!DS.get(idx, lp)) return 0;
+         uint64_t h = 1;
+         for(int wzo = 0; wzo < 2; ++wzo) { set_sub(wzo << 1); h = h * 31 + run_dual(lp, 0, wzo, c); }
+         return h;
+      }, [&](uint64_t idx, uint64_t sub) { TinyLP lp; DS.get(idx, lp); return "D|fmt=0,wzo=" + std::to_string((sub >> 1) & 1) + "|" + lp.str(); }, o,
+      [&](uint64_t, uint64_t) { return std::string("@dual,LP"); });
       // complete 1x1 family in MPS format (also when the canary died: these are the cases that document the crash)
       rep.phase("dual writer: T(1,1) all menus x MPS x wzo", D11.size() * 2, [&](uint64_t idx, int, Ctx & c) -> uint64_t
       {
